@@ -254,6 +254,35 @@ func (p *pkgInfo) switchTable(fn, recv string) [][2]string {
 	return ret
 }
 
+// assignedConst returns the constant assigned to the local variable `name` by its `:=` in a function
+// (`moves := time.Duration(40)`: the value of the conversion's argument, a literal or a named constant).
+func (p *pkgInfo) assignedConst(fn, recv, name string) string {
+	fd := p.funcDecl(fn, recv)
+	if fd == nil {
+		fail("func %v not found", fn)
+	}
+	ret := ""
+	ast.Inspect(fd.Body, func(n ast.Node) bool {
+		as, ok := n.(*ast.AssignStmt)
+		if !ok || as.Tok != token.DEFINE || len(as.Lhs) != 1 || len(as.Rhs) != 1 || ret != "" {
+			return true
+		}
+		if id, ok := as.Lhs[0].(*ast.Ident); !ok || id.Name != name {
+			return true
+		}
+		e := as.Rhs[0]
+		if call, ok := e.(*ast.CallExpr); ok && len(call.Args) == 1 {
+			e = call.Args[0]
+		}
+		ret = p.exprInt(e)
+		return true
+	})
+	if ret == "" {
+		fail("no constant `%v := ...` in %v", name, fn)
+	}
+	return ret
+}
+
 func (p *pkgInfo) bodyHash(fn, recv string) string {
 	fd := p.funcDecl(fn, recv)
 	if fd == nil {
@@ -678,6 +707,11 @@ func main() {
 	s := load(filepath.Join(*repo, "pkg/search"))
 	w("-- pkg/search")
 	w("def enumBound : List (String × Nat) := %s", leanPairs(s.enum("Bound", nil), false))
+	w("")
+
+	sc := load(filepath.Join(*repo, "pkg/search/searchctl"))
+	w("-- pkg/search/searchctl/timectrl.go: `moves := time.Duration(<n>)` in TimeControl.Limits (moves assumed to the end of the game)")
+	w("def defaultHorizon : Int := %s", sc.assignedConst("Limits", "TimeControl", "moves"))
 	w("")
 
 	type fn struct {
